@@ -114,6 +114,37 @@ class _Expecting(testtools.TestCase):
         self._log.append("tearDown")
 
 
+class _ExpectingThenSkip(testtools.TestCase):
+    _spec = None
+
+    def test_x(self):
+        v, e = self._spec
+        self.expectThat(v, e.make(), "expectation")
+        self.skipTest("a later skip must not hide the failed expectation")
+
+
+def check_expect_then_skip(e, v, res):
+    problems = []
+    try:
+        mismatching = e.make().match(v) is not None
+    except BaseException:
+        return problems
+    case = _ExpectingThenSkip("test_x")
+    case._spec = (v, e)
+    result = rec.TT()
+    try:
+        case.run(result)
+    except BaseException as ex:
+        return [("expectThat", "run() raised %s" % type(ex).__name__)]
+    res.evaluations += 1
+    outs = [x[0] for x in result.log if x[0] in rec.OUTCOMES]
+    if mismatching and (outs != ["addFailure"] or result.wasSuccessful()):
+        problems.append(("expectThat-masked", "expectThat(%r, %s) mismatched, the test then skipped: outcomes %r, wasSuccessful()=%r" % (v, e.name, outs, result.wasSuccessful())))
+    if not mismatching and outs != ["addSkip"]:
+        problems.append(("expectThat", "expectThat(%r, %s) matched, the test then skipped: outcomes %r" % (v, e.name, outs)))
+    return problems
+
+
 def check_expect(e, v, res):
     problems = []
     try:
@@ -204,6 +235,8 @@ def run_shard(shard, tier, seed):
                 problems = check_pair(e, v, res)
                 if e.depth <= 1:
                     problems += check_expect(e, v, res)
+                if e.depth == 0:
+                    problems += check_expect_then_skip(e, v, res)
                 for clause, msg in problems:
                     fp = "C07/%s" % clause
                     if clause == "matcher-str" or (clause == "mismatcherror-str" and "verbose=True" in msg):
